@@ -101,3 +101,31 @@ def maxrel(a, b):
     b = np.asarray(b)
     den = max(1e-300, float(np.abs(b).max()))
     return float(np.abs(a - b).max()) / den
+
+
+def run_driver(grid, cwd, tend, save, folder, constfile='c.json', tmax=100000, chooser=None, mode='S', clock=None):
+    """One fullSimulation.main() run on the simulated world (cwd must contain constfile)."""
+    setup()
+    import fullSimulation
+
+    def fn(r):
+        fullSimulation.main()
+    argv = ['fullSimulation.py', str(tend), str(tmax), '-c', constfile, '-f', folder, '-s', str(save)]
+    old_time = sys.modules.get('time')
+    try:
+        if clock is not None:
+            sys.modules['time'] = clock
+        return run_world(grid, fn, cwd=cwd, argv=argv, chooser=chooser, mode=mode)
+    finally:
+        if clock is not None:
+            sys.modules['time'] = old_time
+
+
+def read_checkpoints(folder):
+    import glob
+    import h5py
+    out = {}
+    for fpath in sorted(glob.glob(os.path.join(folder, '*.h5'))):
+        with h5py.File(fpath, 'r') as h:
+            out[os.path.basename(fpath)] = (h['dset'][...], tuple(int(x) for x in h['dset'].attrs['Layout']))
+    return out
